@@ -80,17 +80,17 @@ def base_case(rng, fmt=None, min_blocks=1, hermitian=True, need_big_block=False)
 
 DAMAGES = ["h0_offdiag", "h0_undecided", "shared1", "shared2", "mask_equal", "biorth", "mask_asym",
            "nonherm_term", "solver_fd", "vecs_and_indices", "herm_pairs", "legacy_nonherm",
-           "fd_array_blocks", "solver_single", "unsupported_type"]
+           "fd_array_blocks", "solver_single", "unsupported_type", "cross_overlap", "cross_overlap_lr"]
 
 
 def make_vcase(rng, damages, fmt=None):
     """build a vcase carrying the given damages (list of names)."""
     hermitian = True
-    if "legacy_nonherm" in damages:
+    if "legacy_nonherm" in damages or "cross_overlap_lr" in damages:
         hermitian = False
     elif not damages and rng.random() < 0.3:
         hermitian = False
-    need_pair = any(d in damages for d in ("h0_offdiag", "h0_undecided", "shared1", "shared2"))
+    need_pair = any(d in damages for d in ("h0_offdiag", "h0_undecided", "shared1", "shared2", "cross_overlap", "cross_overlap_lr"))
     need_big = any(d in damages for d in ("mask_equal", "mask_asym"))
     if "nonherm_term" in damages or "h0_undecided" in damages:
         fmt = "sympy"
@@ -192,6 +192,33 @@ def make_vcase(rng, damages, fmt=None):
             v["designation"] = "eigvecs"
             p = rng.randrange(nb)
             rec.update(p=p, how=rng.choice(["scale", "tilt"]))
+        elif d in ("cross_overlap", "cross_overlap_lr"):
+            # every subspace (bi)orthonormal within itself, two different subspaces overlap, and
+            # nothing else is wrong: L_i^† H_0 R_j = 0 for i != j, diagonal blocks stay diagonal,
+            # no shared energies
+            v["designation"] = "eigvecs"
+            c["fully"] = None
+            p, q = rng.sample(range(nb), 2)
+            a = rng.choice(bl[p])
+            if d == "cross_overlap":
+                # v_a = (3 e_a + 4 e_b)/5 in block p, v_b = (4 e_a + 3 e_b)/5 in block q, E_b = -E_a:
+                # <v_b|H_0|v_a> = 12/25 (E_a + E_b) = 0, projected energies -+ 7 E_a / 25
+                b = rng.choice(bl[q])
+                e = G(rng.choice([1, 2, 3]))
+                set_entry(c, zkey(c), a, a, e)
+                set_entry(c, zkey(c), b, b, -e)
+                rec.update(p=p, q=q, a=a, b=b)
+            else:
+                # L_p gets an admixture of a zero-energy state z of block q: L_p^† R_q != 0 but
+                # L_p^† H_0 R_q = E_z / 2 = 0
+                z = rng.choice(bl[q])
+                set_entry(c, zkey(c), z, z, G(0), herm=False)
+                E = energies(c)
+                if any(E[s].is_zero() for blk in range(nb) if blk != q for s in bl[blk]):
+                    return None
+                if all(E[s].is_zero() for s in range(len(c["sub"]))):
+                    return None
+                rec.update(p=p, q=q, a=a, z=z)
         elif d == "nonherm_term":
             v["container"] = "expr"
             n = rng.choice([0, 1, 1, 2])
@@ -252,12 +279,14 @@ def make_vcase(rng, damages, fmt=None):
 
 
 def eigvec_matrices(v):
+    """exact (right, left) bases per block: identity columns, then the planted damages."""
     c = v["case"]
     bl = blocks_of(c)
     dim = len(c["sub"])
-    mats = []
+    Rs, Ls = [], []
     for b, idx in enumerate(bl):
         M = [[G(1 if r == k else 0) for k in idx] for r in range(dim)]
+        L = None
         for d in v["damages"]:
             if d["kind"] == "biorth" and d["p"] == b:
                 if d["how"] == "scale" or dim < 2:
@@ -266,8 +295,21 @@ def eigvec_matrices(v):
                 else:
                     other = next(r for r in range(dim) if r != idx[0])
                     M[other][0] = M[other][0] + G(1)
-        mats.append(M)
-    return mats
+            if d["kind"] == "cross_overlap" and b in (d["p"], d["q"]):
+                col = idx.index(d["a"] if b == d["p"] else d["b"])
+                ca, cb_ = (Fr(3, 5), Fr(4, 5)) if b == d["p"] else (Fr(4, 5), Fr(3, 5))
+                for r in range(dim):
+                    M[r][col] = G(ca if r == d["a"] else cb_ if r == d["b"] else 0)
+            if d["kind"] == "cross_overlap_lr" and b == d["p"]:
+                L = [row[:] for row in M]
+                L[d["z"]][idx.index(d["a"])] = G(Fr(1, 2))
+        Rs.append(M)
+        Ls.append(L if L is not None else M)
+    return Rs, Ls
+
+
+def uses_lr(v):
+    return any(d["kind"] == "cross_overlap_lr" for d in v["damages"])
 
 
 def build_call(v):
@@ -287,12 +329,12 @@ def build_call(v):
     if v["designation"] == "indices" or v["extra_indices"]:
         kw["subspace_indices"] = list(c["sub"])
     if v["designation"] == "eigvecs":
-        mats = eigvec_matrices(v)
-        if fmt == "sympy":
-            vecs = [implrun.to_sympy(M) for M in mats]
-        else:
-            vecs = [implrun.to_numpy(M) for M in mats]
-        if v["pairs"]:
+        Rs, Ls = eigvec_matrices(v)
+        cv = implrun.to_sympy if fmt == "sympy" else (lambda M: implrun.to_numpy(M, real_if_possible=False) if uses_lr(v) else implrun.to_numpy(M))
+        vecs = [cv(M) for M in Rs]
+        if uses_lr(v):
+            vecs = [(cv(R), cv(L)) for R, L in zip(Rs, Ls)]
+        elif v["pairs"]:
             vecs = [(vecs[0], vecs[0])] + vecs[1:]
         kw["subspace_eigenvectors"] = vecs
     if v["fd_override"] is not None:
@@ -418,12 +460,23 @@ def abstract(v):
         fd = "(FdDict [%s])" % "; ".join("(%d, %s)" % (int(k), mask_info(int(k), m)) for k, m in c["fully"].items())
     # eigenvectors
     if v["designation"] == "eigvecs":
-        mats = eigvec_matrices(v)
-        R = [[x for M in mats for x in (M[r])] for r in range(dim)]
-        ov = gq.mul(gq.adj(R), R)
-        overlap = "Yes" if gq.eq(ov, gq.eye(len(R[0]))) else "No"
+        Rs, Ls = eigvec_matrices(v)
+        R = [[x for M in Rs for x in (M[r])] for r in range(dim)]
+        L = [[x for M in Ls for x in (M[r])] for r in range(dim)]
+        ov = gq.mul(gq.adj(L), R)
+        offs, o = [], 0
+        for M in Rs:
+            offs.append(range(o, o + len(M[0])))
+            o += len(M[0])
+        within = all(gq.eq(gq.block(ov, offs[i], offs[i]), gq.eye(len(offs[i]))) for i in range(nb))
+        cross = all(gq.is_zero(gq.block(ov, offs[i], offs[j])) for i in range(nb) for j in range(nb) if i != j)
         kind = "VecSympy" if c["fmt"] == "sympy" else "VecNumpy"
-        ev = "(Some (mkEigvecs %s true true %s %s true true %s))" % (cb(v["pairs"]), kind, overlap, cb(c["fmt"] != "sympy"))
+        ev = "(Some (mkEigvecs %s true true %s %s %s true true %s))" % (
+            cb(v["pairs"] or uses_lr(v)), kind, "Yes" if within else "No", "Yes" if cross else "No", cb(c["fmt"] != "sympy"))
+        # what the later tests see: the projected zeroth order L^† H_0 R (block-ordered)
+        H0 = gq.mul(gq.mul(gq.adj(L), H0), R)
+        bl = [list(r) for r in offs]
+        E = [H0[k][k] for k in range(len(H0))]
     else:
         ev = "None"
     indices = v["designation"] == "indices" or v["extra_indices"]
